@@ -504,3 +504,29 @@ theorem run_refines {q : TQ} (h : Inv q) (ops : List Op) :
     exact ⟨by rw [i1], i2, i3⟩
 
 end Sc3Verif.C09
+
+namespace Sc3Verif.C09
+
+theorem drain_refines' (beh : Nat → List Op) (fuel : Nat) {q : TQ} (h : Inv q) :
+    q.drain beh fuel = SQ.drain beh fuel q.abs := by
+  induction fuel generalizing q with
+  | zero => rfl
+  | succ fuel ih =>
+    unfold TQ.drain SQ.drain
+    rw [empty_spec h]
+    obtain ⟨hp1, hp2, hp3⟩ := pop_spec h
+    cases hq : q.abs with
+    | nil => simp
+    | cons x rest =>
+      obtain ⟨p, t⟩ := x
+      simp only [List.isEmpty_cons, Bool.false_eq_true, if_false]
+      rw [hq] at hp1 hp2
+      simp only [List.head?_cons, List.tail_cons] at hp1 hp2
+      have hpair : q.pop = (q.pop.1, some (p, t)) := by
+        rw [← hp1]
+      rw [hpair]
+      simp only
+      obtain ⟨_, r2, r3⟩ := run_refines hp3 (beh t)
+      rw [ih r3, r2, hp2]
+
+end Sc3Verif.C09
